@@ -199,10 +199,9 @@ finishUp:
 			return mantissa, 0, neg, trunc, p, false
 		}
 		e := 0
+		elimit := expLimit(len(data))
 		for ; p < len(data) && (data[p] >= '0' && data[p] <= '9'); p++ {
-			if e < 10000 {
-				e = e*10 + int(data[p]) - '0'
-			}
+			e = accumulateExp(e, data[p], elimit)
 		}
 		dp += e * esign
 	}
@@ -225,6 +224,26 @@ var digits = [256]bool{
 	'7': true,
 	'8': true,
 	'9': true,
+}
+
+// expLimit is the value at which an exponent saturates. The decimal point of a literal of n bytes
+// can be moved at most n places by its digits, so an exponent beyond n+10000 decides overflow or
+// underflow whatever the digits are, while every smaller exponent is kept exactly (a fixed cut-off
+// goes wrong for literals with more digits than the cut-off).
+func expLimit(n int) int {
+	return n + 10000
+}
+
+// accumulateExp appends digit c to the exponent e, saturating at limit.
+func accumulateExp(e int, c byte, limit int) int {
+	if e >= limit {
+		return limit
+	}
+	e64 := int64(e)*10 + int64(c-'0')
+	if e64 >= int64(limit) {
+		return limit
+	}
+	return int(e64)
 }
 
 func (a *decimal) set(data []byte) (ok bool) {
@@ -304,13 +323,12 @@ func (a *decimal) set(data []byte) (ok bool) {
 			return false
 		}
 		e := 0
+		elimit := expLimit(len(data))
 		for ; i < len(data); i++ {
 			if data[i] < '0' || data[i] > '9' {
 				break
 			}
-			if e < 10000 {
-				e = e*10 + int(data[i]) - '0'
-			}
+			e = accumulateExp(e, data[i], elimit)
 		}
 		a.dp += e * esign
 	}
